@@ -244,9 +244,8 @@ impl AuthRxBuilder {
             && self.reason_string.is_none()
             && self.user_property.is_none();
 
-        if !shortened
-            && (self.authentication_method.is_none() || self.authentication_data.is_none())
-        {
+        // The authentication method is mandatory, the authentication data is not.
+        if !shortened && self.authentication_method.is_none() {
             Err(MandatoryPropertyMissing.into())
         } else {
             Ok(())
@@ -336,6 +335,11 @@ impl TryDecode for AuthRx {
 
         let reason = decoder.try_decode::<AuthReason>()?;
         builder.reason(reason);
+
+        // Remaining length 1: there are no properties.
+        if decoder.remaining() == 0 {
+            return builder.build();
+        }
 
         let property_len = decoder.try_decode::<VarSizeInt>()?;
         if property_len.value() as usize > decoder.remaining() {
